@@ -454,6 +454,6 @@ func vmLeg(c *core.Ctx, n int, sz vmSizes) {
 func init() {
 	// "VM": leg W alone (development aid; the registered properties run it through C10, C01 and C13)
 	core.Register("VM", func(c *core.Ctx) {
-		vmLeg(c, c.N(4000, 120000), vmSizes{k: 24, maxSteps: c.N(4000, 20000), maxText: 12, extra: 2})
+		vmLeg(c, c.N(3000, 100000), vmSizes{k: 24, maxSteps: c.N(4000, 20000), maxText: 12, extra: 2})
 	})
 }
